@@ -434,6 +434,9 @@ func (w *vfWorld) presentStorageAs(a *vfArtefact, other bool) {
 }
 
 func (w *vfWorld) judgePresent(a *vfArtefact, consumer string, honoured, expect bool, resp *vfResp) {
+	if d := time.Until(a.Exp); a.Forged == "" && d > -time.Second && d < time.Second {
+		return // token times are whole seconds: within a second of the expiry either answer is right
+	}
 	if a.Forged == "claim:nbf" {
 		// signed by the deployment's key, identical but for a not-before two hours after forging:
 		// an authentic token once that instant has passed
